@@ -171,6 +171,15 @@ pub(crate) fn table_with(id: Id, ns: Vec<Node>) -> RoutingTable {
     rt
 }
 
+/// as `table_with`, plus an emptied bucket at a nearer distance (what `remove` leaves behind when
+/// the only node of a bucket goes: the bucket stays in the map, empty)
+pub(crate) fn table_with_emptied_bucket(id: Id, ns: Vec<Node>) -> RoutingTable {
+    let mut rt = RoutingTable::new(id);
+    rt.buckets.insert(150, KBucket { nodes: Vec::with_capacity(1) });
+    rt.buckets.insert(160, KBucket { nodes: ns });
+    rt
+}
+
 fn direct_table(ns: Vec<Node>) -> RoutingTable {
     let mut rt = RoutingTable::new(Id::from([0u8; 20]));
     rt.buckets.insert(160, KBucket { nodes: ns });
